@@ -134,6 +134,8 @@ class AnglesFromGratingEquation3D(Model):
         alpha_out = -groove_density * spectral_order * wavelength + alpha_in
         beta_out = - beta_in
         gamma_out = np.sqrt(1 - alpha_out ** 2 - beta_out ** 2)
+        # beta_out depends on beta_in only: all outputs get the common shape of the inputs
+        alpha_out, beta_out, gamma_out = np.broadcast_arrays(alpha_out, beta_out, gamma_out, subok=True)
         return alpha_out, beta_out, gamma_out
 
     @property
